@@ -16,6 +16,9 @@ import KafkaVerif.Lemmas.CommitSync
 import KafkaVerif.Model.GroupStart
 import KafkaVerif.Gen.GroupFacts
 import KafkaVerif.Lemmas.Group
+import KafkaVerif.Lemmas.GroupFront
+import KafkaVerif.Lemmas.ReaderRun
+import KafkaVerif.Lemmas.GroupLog
 
 namespace KV.Commit.C03
 open KV.Commit
@@ -104,6 +107,15 @@ theorem sync_commit_recorded_msgs (s : CState) (h : CReachable s) (r : Req) (hr 
     (m : TP × Int) (hm : makeCommit m ∈ r.commits) :
     ∃ i offs, s.sent[i]? = some (offs, true) ∧ r.sentAtCall ≤ i ∧ ∃ o, (m.1, o) ∈ offs ∧ m.2 + 1 ≤ o :=
   sync_commit_recorded s h r hr (makeCommit m) hm
+
+/-- The statement of the property itself: when a SYNCHRONOUS `CommitMessages` call returns nil (`(id, true) ∈ rets`), it
+was the call of some request `r` with that id, and for every message of it the coordinator has acknowledged — in a request
+issued after the call began — an offset ≥ message offset + 1 for its partition. -/
+theorem sync_commitMessages_nil_recorded (s : CState) (h : CReachable s) (id : Nat) (hr : (id, true) ∈ s.rets) :
+    ∃ r : Req, r.id = id ∧ ∀ c ∈ r.commits, ∃ i offs, s.sent[i]? = some (offs, true) ∧ r.sentAtCall ≤ i ∧
+      ∃ o, (c.tp, o) ∈ offs ∧ c.offset ≤ o := by
+  obtain ⟨r, h1, h2⟩ := retok_reachable s h (id, true) hr
+  exact ⟨r, h1, sync_commit_recorded s h r h2⟩
 
 /-- the stash is a map: its keys stay unique under every event sequence -/
 theorem stash_keys_unique (s : CState) (h : CReachable s) : Uniq s.stash := (sinv_reachable s h).uniq
@@ -225,5 +237,158 @@ the delivered records is simply not a step of the model -/
 example : grun false {} [.produce, .produce, .assign 1, .deliver 0, .commit 1 2 true] = none := by decide
 
 end GroupHistory
+
+/-! ## group history over a log WITH HOLES (compaction): the same statements relative to the STORED records -/
+section GroupLogSection
+open KV.GroupLog
+
+/-- per assignment: every stored record between the start position and the current position was handed to the member,
+only stored records were, each to this member (gap-free relative to what the partition stores) -/
+theorem no_gap_per_assignment_stored (s : KV.GroupLog.G) (h : KV.GroupLog.GReachable s) (rd : KV.GroupLog.Reader)
+    (hrd : rd ∈ s.readers) :
+    (∀ r ∈ s.log, rd.start ≤ r → r < rd.pos → r ∈ rd.epoch) ∧
+    (∀ r ∈ rd.epoch, r ∈ s.log ∧ (rd.m, r) ∈ s.delivered ∧ rd.start ≤ r ∧ r < rd.pos) :=
+  ⟨(KV.GroupLog.ginv_reachable s h).noskip rd hrd, (KV.GroupLog.ginv_reachable s h).mine rd hrd⟩
+
+/-- every STORED record below an acknowledged commit was delivered to some member before -/
+theorem delivered_before_covered_stored (s : KV.GroupLog.G) (h : KV.GroupLog.GReachable s) (c : Nat)
+    (hc : s.committed = some c) : ∀ r ∈ s.log, r < c → ∃ m, (m, r) ∈ s.delivered :=
+  (KV.GroupLog.ginv_reachable s h).cov c hc
+
+/-- quiescent (some member's position is past every stored offset) ⇒ every stored record was delivered -/
+theorem quiescent_all_delivered_stored (s : KV.GroupLog.G) (h : KV.GroupLog.GReachable s) (rd : KV.GroupLog.Reader)
+    (hrd : rd ∈ s.readers) (hq : ∀ r ∈ s.log, r < rd.pos) : ∀ r ∈ s.log, ∃ m, (m, r) ∈ s.delivered :=
+  fun r hr => (KV.GroupLog.ginv_reachable s h).below rd hrd r hr (hq r hr)
+
+/-- non-vacuity: stored offsets 0 3 4 9 (holes), two members, a rebalance, re-delivery from the commit -/
+example : (KV.GroupLog.grun {} [.produce 0, .produce 3, .produce 4, .assign 1, .deliver 0, .deliver 0, .commit 1 4 true,
+    .produce 9, .assign 2, .deliver 1, .deliver 1, .commit 2 10 true]).map (fun s => (s.committed, s.delivered))
+    = some (some 10, [(1, 0), (1, 3), (2, 4), (2, 9)]) := by decide
+
+end GroupLogSection
+
+/-! ## the Reader front between the fetchers and the application (justifies the `deliver` step of the group history)
+
+`Model/GroupFront.lean`: FetchMessage samples `r.version` BEFORE it blocks; a generation change (`subscribe`) may happen
+while the call is pending.  Hypothesis: each fetcher enqueues its own records gap-free in order (C02). -/
+section Front
+open KV.GroupFront
+
+/-- regenerated: FetchMessage keeps a message iff `m.version >= version` (the sampled one) — the `accept` of the model -/
+theorem front_matches_source :
+    KV.Gen.Group.fetchVersionFilter = ">=" ∧ ∀ tag sampled, accept false tag sampled = decide (tag ≥ sampled) := by
+  refine ⟨by decide, fun tag sampled => ?_⟩
+  simp [accept]
+
+/-- For every generation (version tag) the offsets FetchMessage returned from that generation's fetcher are exactly
+`start, start+1, …` — consecutive from the assignment's start position, nothing skipped — in every reachable state,
+whatever the interleaving of calls, subscriptions (also while a call is pending), late enqueues of cancelled
+fetchers and receives. -/
+theorem front_no_gap_per_generation (s : GF) (h : FReachable false s) (t : Nat) :
+    (s.out.filter (fun e => e.1 == t)).map (·.2) = List.range' (s.start t) (s.returned t) :=
+  (finv_reachable s h).j4 t
+
+/-- A record of the CURRENT generation is never discarded: if the head of the queue carries the current version, a
+pending FetchMessage — whenever it sampled the version — returns it. -/
+theorem current_generation_never_dropped (s : GF) (h : FReachable false s) (v o : Nat) (rest : List (Nat × Nat))
+    (hs : s.sampled = some v) (hq : s.queue = (s.version, o) :: rest) :
+    ∃ s', fstep false s .recv = some s' ∧ s'.out = s.out ++ [(s.version, o)] ∧ s'.sampled = none := by
+  have hv := (finv_reachable s h).j1 v hs
+  simp only [fstep, hs, hq, accept]
+  simp [hv]
+
+/-- In particular: a FetchMessage pending on an idle queue while the group rebalances receives the FIRST record the new
+generation fetches (the one at the new assignment's start position). -/
+theorem pending_fetch_gets_first_record_of_new_generation (s : GF) (h : FReachable false s) (v st : Nat)
+    (hs : s.sampled = some v) (hq : s.queue = []) :
+    (frun false s [.subscribe st, .enqueue (s.version + 1), .recv]).map (·.out) = some (s.out ++ [(s.version + 1, st)]) := by
+  have i := finv_reachable s h
+  have hv := i.j1 v hs
+  have hz := (i.j6z (s.version + 1) (by omega)).1
+  have hle : v ≤ s.version + 1 := by omega
+  simp [frun, fstep, hs, hq, accept, upd, hz, hle]
+
+/-- With `m.version == version` instead of `>=` (seeded change C03-m5) exactly that record is discarded: the call sampled
+version 0, generation 1 subscribes at offset 5 and fetches it; the record is taken off the queue and lost. -/
+theorem strict_version_filter_counterexample :
+    (frun true {} [.call, .subscribe 5, .enqueue 1, .recv]).map (fun s => (s.out, s.queue, s.taken 1)) = some ([], [], 1) := by
+  decide
+
+example : (frun false {} [.call, .subscribe 5, .enqueue 1, .recv]).map (fun s => (s.out, s.queue)) = some ([(1, 5)], []) := by
+  decide
+
+end Front
+
+/-! ## the per-generation unsubscribe function of Reader.run (D8b) -/
+section ReaderRunSection
+open KV.ReaderRun
+
+/-- (repaired code, /repo 88525ef) Whenever and in whatever order the per-generation unsubscribe functions run — also
+late, after later generations subscribed —: the fetchers of the CURRENT generation are running unless that
+generation's own function has run. -/
+theorem current_fetchers_survive_late_unsubscribe (s : RR) (h : RReachable true s) (hp : 0 < s.gens)
+    (hn : s.unsubRan.getD (s.gens - 1) true = false) : s.alive.getD (s.gens - 1) false = true :=
+  (rinv_reachable s h).cur hp hn
+
+/-- D8b on the original code: generation 0's function runs after generation 1 subscribed and stops generation 1's
+fetchers — the member owns its partitions and fetches nothing. -/
+theorem late_unsubscribe_counterexample :
+    rrun false {} [.subscribe, .subscribe, .unsub 0] = some { gens := 2, alive := [false, false], unsubRan := [true, false] } := by
+  decide
+
+example : rrun true {} [.subscribe, .subscribe, .unsub 0] = some { gens := 2, alive := [false, true], unsubRan := [true, false] } := by
+  decide
+
+/-- "readers of the previous generation are stopped before rejoining": of one Reader, only the current generation's
+fetchers can be running (both code variants) -/
+theorem previous_generation_fetchers_stopped (cap : Bool) (s : RR) (h : RReachable cap s) (g : Nat) (hg : g + 1 < s.gens) :
+    s.alive.getD g false = false :=
+  (oneinv_reachable cap s h).old g hg
+
+/-- regenerated: `Reader.unsubscribe` cancels the func it is given (the generation's own), not `r.cancel` -/
+theorem unsubscribe_matches_source : KV.Gen.Group.unsubscribeCancels = "parameter" := by decide
+
+end ReaderRunSection
+
+/-! ## ReadMessage = FetchMessage + synchronous CommitMessages (C03-D30, known finding) -/
+section ReadMessageSection
+
+/-- `reader.go ReadMessage`: `m := FetchMessage(); if err := CommitMessages(m); err != nil { return Message{}, err }; return m` -/
+structure RM where
+  next : Nat := 0                 -- next offset the front hands out (gap-free, `front_no_gap_per_generation`)
+  returned : List Nat := []       -- what the application received
+  committed : Option Nat := none
+  deriving DecidableEq, Repr
+
+/-- one ReadMessage call; `commitOk = false`: every retry of the commit failed with a transient error -/
+def RM.read (s : RM) (commitOk : Bool) : RM :=
+  if commitOk then { next := s.next + 1, returned := s.returned ++ [s.next], committed := some (s.next + 1) }
+  else { s with next := s.next + 1 }   -- the message is dropped, the error returned
+
+def RM.run (s : RM) : List Bool → RM
+  | [] => s
+  | b :: bs => (s.read b).run bs
+
+/-- as long as no commit fails the application receives every record and the commit covers only received ones -/
+theorem readmessage_no_gap_without_failures (n : Nat) :
+    (RM.run {} (List.replicate n true)).returned = List.range n := by
+  have key : ∀ (k : Nat) (s : RM), s.returned = List.range s.next →
+      (RM.run s (List.replicate k true)).returned = List.range (s.next + k) := by
+    intro k
+    induction k with
+    | zero => intro s h; simpa [RM.run] using h
+    | succ k ih =>
+      intro s h
+      simp only [List.replicate_succ, RM.run]
+      have := ih (s.read true) (by simp [RM.read, h, List.range_succ])
+      simpa [RM.read, Nat.add_assoc, Nat.add_comm 1 k] using this
+  simpa using key n {} rfl
+
+/-- C03-D30: one failed commit (transient, the generation lives on) and the next ReadMessage's commit covers a record the
+application never received -/
+theorem readmessage_gap_counterexample :
+    RM.run {} [false, true] = { next := 2, returned := [1], committed := some 2 } := by decide
+
+end ReadMessageSection
 
 end KV.Commit.C03
